@@ -3,7 +3,7 @@
 # usage: tools/baseline.sh [repo-dir]   (writes .work/baseline/<n>.json + prints the comparison)
 REPO=${1:-/repo}
 OUT=/verif/.work/baseline; mkdir -p $OUT; LOG=$OUT/run.$$.json; : > $LOG
-export GOPROXY=off GOSUMDB=off GOTOOLCHAIN=local
+export GOPROXY=off; unset GOFLAGS GOSUMDB GOTOOLCHAIN
 for m in $(cat /w/out/gomods.txt); do MF=$(cd $REPO/$m && . /w/out/goenv.sh && gomodflag); (cd $REPO/$m && go test $MF -json -vet=off -count=1 -timeout 40m ./... >> $LOG 2>&1); done
 python3 - "$LOG" <<'PY'
 import json, sys
